@@ -8,6 +8,17 @@ package spnego
 //@   ensures err == nil && isInit ==> tagof(nt) == typeid("spnego.NegTokenInit")
 //@   ensures err == nil && !isInit ==> tagof(nt) == typeid("spnego.NegTokenResp")
 
-// The credentials value read back from the context was stored under the same key by KRB5Token.Verify on the
-// path that set authed; context.Context is external and its Value/WithValue pairing is not modelled.
-//@ assume_obligation spnego.SPNEGOKRB5Authenticate$1#typeassert:id := ctx.Value(ctxCredentials).(*credentials.Credentials) :: context.WithValue/Value pairing of the stdlib is not modelled
+// ---- property C03: every verification API reports success only for a token containing an AP-REQ that
+// service.VerifyAPREQ accepted (ghost apreqAccepted), with status COMPLETE (1<<19), and the context it hands out
+// carries exactly the credentials VerifyAPREQ returned (ghost apreqCreds).
+//@ define ctx_is_accepted(c) := ctxhasval(c) && tagof(ctxval(c)) == typeid("*credentials.Credentials") && iref(ctxval(c)) == apreqCreds
+
+//@ func (*spnego.KRB5Token).Verify(m) (ok, st)
+//@   modifies m.context, m.APReq.Ticket.DecryptedEncPart, m.APReq.Authenticator
+//@   trusted_frame see the contracts of service.VerifyAPREQ and messages.APReq.Verify
+//@   ensures ok ==> apreqAccepted && st.Code == 524288 && ctx_is_accepted(m.context)
+//@   ensures !ok ==> st.Code != 524288
+
+//@ func (*spnego.KRB5Token).Context(m) (r)
+//@   pure
+//@   ensures r == m.context
